@@ -25,7 +25,7 @@ def build(H, tier, seed):
     D.vc_unary_call(H)
     D.vc_registry_call(H)
     from contracts import access_c as A
-    A.vc_grade(H)
+    A.vc_grade(H, frame=True)
     A.vc_trivial_accessors(H)
     A.vc_map_filter(H)
 
